@@ -4,11 +4,17 @@ Case format (tree):  [parent ids, child rows [id, val, pid(0 = NULL)], session a
   steps   [1,v,p] add C(id=fresh, val=v, pid=p)      [2] add P(id=fresh)
           [3,k,v] child k .val = v                    [4,k,p] child k .pid = p   (re-parent)
           [5,k]   session.delete(child k)             [6] session.flush()
+          [7,k]   child k .id = fresh   (primary key change of a persistent object; afterwards the object is addressed
+                  by its new id; cases containing it carry "model": False - twin oracle only)
           [10,kind,mode,a] query:
              kind 0 execute(select(C).where(C.val >= a).order_by(C.id)).scalars()     1 select(C.id, C.val).where(C.pid == a)
                   2 select(count()).select_from(C)    3 Core select on the Table (c.val >= a)    4 session.get(C, a)
                   5 lazy load  child a .parent        6 collection load  parent a .children      7 session.get(P, a)
                   8 session.refresh(child a)          9 session.query(C).filter(C.val >= a)      10 session.scalars(select(C.id)...)
+                  11 session.scalar(select(count()).select_from(<Table c>))   12 session.scalar(text("select count(*) from c"))
+                  13 session.execute(text("select id from c where val >= :a order by id"))
+                  14 session.scalar(select(count()).select_from(C))            15 session.scalars(<Core select c.id>)
+                  16 session.connection().execute(<Core select c.id>)   (not a Session execution: never autoflushes)
              mode 0 plain   1 inside `with session.no_autoflush`   2 execution option autoflush=False / Query.autoflush(False)
 Two sessions on two identical databases run every step: A as written, the TWIN B calls flush() before
 every query.  Observation per step (coq/orm/AutoflushRun.v models side A):
@@ -27,11 +33,14 @@ RUNNER = ("SAV.orm.AutoflushRun", "run_case")
 STATIC_MODULES = ["SAV.orm.AutoflushRun"]
 RULE = (
     "parents {1}, children {(1,10,1),(2,20,0)}, child 1 and parent 1 loaded: every sequence of <= 2 pending "
-    "changes from {add child, add parent, set val (2 objects), re-parent, delete} followed by each of the 11 query "
-    "kinds in each applicable mode (plain / no_autoflush block / autoflush=False option) and a final plain "
+    "changes from {add child, add parent, set val (2 objects), re-parent, delete} followed by each of the 17 query "
+    "kinds (execute / scalars / scalar x ORM entity, ORM column, count, Core Table select, text(); get; lazy and "
+    "collection load; refresh; Query; connection().execute) in each applicable mode (plain / no_autoflush block / autoflush=False option) and a final plain "
     "entity query (quick: a seeded sample of 1000; thorough: all), with session autoflush on; plus random "
-    "histories of <= 12 steps (<= 2 parents, <= 3 children, session autoflush on 80%). non-trivial = a query "
-    "runs while a change is pending"
+    "histories of <= 12 steps (<= 2 parents, <= 3 children, session autoflush on 80%); plus - twin oracle only, "
+    "not compared with the model - primary-key changes of a persistent object (with / without pending INSERTs) "
+    "followed by every query kind and get() by the new and the old key (quick: 700 sampled + 400 random). "
+    "non-trivial = a query runs while a change is pending"
 )
 TRUSTED = [
     "hand-written Gallina transcription (coq/orm/Autoflush.v) of Session._autoflush / no_autoflush / _execute_internal "
@@ -46,6 +55,7 @@ ASSUMPTIONS = [
     "column; parents are never deleted or modified",
     "one Session, no commit/rollback/expire_all inside a case; queries are the 11 generated shapes",
     "autoflush suppression while flushing (Session._flushing) is covered by the T2 guard only, not behaviourally",
+    "primary-key changes are not in the Gallina model: those histories are decided by the twin-session oracle only",
     "interpretation: 'lazy load executed inside the session' does not include attribute access on a PENDING object - "
     "no load is emitted there (relationship.load_on_pending defaults to False, documented); the model still returns "
     "None / [] for it and the oracle skips those steps (result code 4)",
@@ -70,6 +80,9 @@ ANCHORS = [
 ADDC, ADDP, SETVAL, SETPID, DELC, FLUSH = 1, 2, 3, 4, 5, 6
 Q = 10
 SELENT, SELCOL, COUNT, CORE, GET, LAZYP, CHILDREN, GETP, REFRESH, LEGACY, SCALARS = range(11)
+SCALARCORE, SCALARTEXT, EXECTEXT, SCALARORM, SCALARSCORE, CONNEXEC = range(11, 17)
+NKINDS = 17
+SETID = 7  # [7,k] child k .id = fresh  (primary-key change; such histories are checked by the twin oracle only)
 
 # ------------------------------------------------------------------------------ translate (T1 + T2)
 SCAN = ["orm/session.py", "orm/context.py", "orm/strategies.py", "orm/query.py", "orm/loading.py"]
@@ -170,12 +183,12 @@ def translate(repo, outdir):
 
 # ------------------------------------------------------------------------------ generation
 def _modes(kind):
-    return (0, 1) if kind in (LAZYP, CHILDREN, REFRESH) else (0, 1, 2)
+    return (0, 1) if kind in (LAZYP, CHILDREN, REFRESH, CONNEXEC) else (0, 1, 2)
 
 
 def _arg(kind):
     return {SELENT: 15, SELCOL: 1, COUNT: 0, CORE: 15, GET: 3, LAZYP: 1, CHILDREN: 1, GETP: 2, REFRESH: 2, LEGACY: 15,
-            SCALARS: 15}[kind]
+            SCALARS: 15, SCALARCORE: 0, SCALARTEXT: 0, EXECTEXT: 15, SCALARORM: 0, SCALARSCORE: 15, CONNEXEC: 15}[kind]
 
 
 PENDING = [[ADDC, 15, 1], [ADDC, 25, 2], [ADDP], [SETVAL, 1, 25], [SETVAL, 2, 5], [SETPID, 2, 1], [SETPID, 1, 2], [DELC, 1]]
@@ -185,7 +198,7 @@ def _family():
     pre = [[Q, GET, 0, 1], [Q, GET, 0, 2], [Q, GETP, 0, 1]]
     for n in (0, 1, 2):
         for pend in itertools.product(PENDING, repeat=n):
-            for kind in range(11):
+            for kind in range(NKINDS):
                 for mode in _modes(kind):
                     for a in {_arg(kind), 1 if kind in (GET, LAZYP, REFRESH) else _arg(kind)}:
                         steps = pre + [list(p) for p in pend] + [[Q, kind, mode, a], [Q, SELENT, 0, 0]]
@@ -211,15 +224,15 @@ def _rand(rng):
             else:
                 steps.append([k, rng.randint(1, 5)])
         else:
-            kind = rng.randrange(11)
+            kind = rng.randrange(NKINDS)
             mode = rng.choice([0, 0, 0, 1, 2])
-            if mode == 2 and kind in (LAZYP, CHILDREN, REFRESH):
+            if mode == 2 and kind in (LAZYP, CHILDREN, REFRESH, CONNEXEC):
                 mode = 0
-            if kind in (SELENT, CORE, LEGACY, SCALARS):
+            if kind in (SELENT, CORE, LEGACY, SCALARS, EXECTEXT, SCALARSCORE, CONNEXEC):
                 a = rng.choice([0, 10, 15, 20])
             elif kind in (SELCOL, GETP, CHILDREN):
                 a = rng.randint(1, 3)
-            elif kind == COUNT:
+            elif kind in (COUNT, SCALARCORE, SCALARTEXT, SCALARORM):
                 a = 0
             else:
                 a = rng.randint(1, 5)
@@ -227,18 +240,53 @@ def _rand(rng):
     return {"in": [prow, crow, saf, steps], "kind": "random"}
 
 
+def _family_pk():
+    """primary-key change of a persistent object, then every entry point in every mode, get() by the new and by the
+    old key, with and without pending INSERTs (session._new empty / non-empty); twin oracle only"""
+    pre = [[Q, GET, 0, 1], [Q, GET, 0, 2], [Q, GETP, 0, 1]]
+    for before, nadd in (([], 0), ([[ADDC, 15, 1]], 1), ([[ADDC, 15, 1], [Q, COUNT, 0, 0]], 1), ([[SETVAL, 2, 5]], 0),
+                         ([[Q, SCALARS, 0, 0]], 0)):
+        new = 3 + nadd
+        for change in ([[SETID, 1]], [[SETID, 1], [SETID, new]], [[SETID, 1], [SETVAL, new, 25]], [[SETID, 2], [SETPID, new, 1]],
+                       [[SETID, 1], [DELC, new]], [[SETID, 1], [ADDP]]):
+            last = new + 1 if change[-1][0] == SETID and len(change) == 2 else new
+            for kind in range(NKINDS):
+                for mode in _modes(kind):
+                    args = {_arg(kind)}
+                    if kind in (GET, LAZYP, REFRESH):
+                        args = {1, 2, new, last}
+                    for a in sorted(args):
+                        steps = pre + before + change + [[Q, kind, mode, a], [Q, GET, 0, last], [Q, SELENT, 0, 0]]
+                        yield {"in": [[1], [[1, 10, 1], [2, 20, 0]], 1, [list(x) for x in steps]], "kind": "pk-change",
+                               "model": False}
+
+
+def _rand_pk(rng):
+    c = _rand(rng)
+    steps = c["in"][3]
+    for _ in range(rng.randint(1, 3)):
+        steps.insert(rng.randint(0, len(steps)), [SETID, rng.randint(1, 6)])
+    for _ in range(rng.randint(1, 2)):
+        steps.insert(rng.randint(0, len(steps)), [Q, GET, 0, rng.randint(1, 7)])
+    return {"in": c["in"], "kind": "random-pk-change", "model": False}
+
+
 def gen_cases(rng, tier):
     fam = list(_family())
     cases = fam if tier == "thorough" else rng.sample(fam, 1000)
     for _ in range(8000 if tier == "thorough" else 700):
         cases.append(_rand(rng))
+    fpk = list(_family_pk())
+    cases += fpk if tier == "thorough" else rng.sample(fpk, 700)
+    for _ in range(3000 if tier == "thorough" else 400):
+        cases.append(_rand_pk(rng))
     return cases
 
 
 def nontrivial(c):
     pend = False
     for s in c["in"][3]:
-        if s[0] in (ADDC, ADDP, SETVAL, SETPID, DELC):
+        if s[0] in (ADDC, ADDP, SETVAL, SETPID, DELC, SETID):
             pend = True
         elif s[0] == FLUSH:
             pend = False
@@ -254,7 +302,7 @@ _ENV = {}
 def _env():
     if _ENV:
         return _ENV
-    from sqlalchemy import Column, ForeignKey, Integer, create_engine, func, inspect, select
+    from sqlalchemy import Column, ForeignKey, Integer, create_engine, func, inspect, select, text
     from sqlalchemy.orm import Session, declarative_base, relationship
     from sqlalchemy.pool import StaticPool
 
@@ -277,7 +325,7 @@ def _env():
         e = create_engine("sqlite://", connect_args={"autocommit": False}, poolclass=StaticPool)
         Base.metadata.create_all(e)
         es.append(e)
-    _ENV.update(P=P, C=C, es=es, Session=Session, inspect=inspect, select=select, func=func)
+    _ENV.update(P=P, C=C, es=es, Session=Session, inspect=inspect, select=select, func=func, text=text)
     return _ENV
 
 
@@ -327,7 +375,7 @@ class _Side:
             o = s.get(C, a, execution_options=xo)
             if o is None:
                 return []
-            self.ch[a] = o
+            self.ch[o.id] = o
             return [self.cres(o)]
         if kind == GETP:
             o = s.get(P, a, execution_options=xo)
@@ -366,6 +414,20 @@ class _Side:
             return [self.cres(o) for o in r]
         if kind == SCALARS:
             return [[x] for x in s.scalars(select(C.id).where(C.val >= a).order_by(C.id), execution_options=xo).all()]
+        t = C.__table__
+        if kind == SCALARCORE:
+            return [[s.scalar(select(func.count()).select_from(t), execution_options=xo)]]
+        if kind == SCALARTEXT:
+            return [[s.scalar(E["text"]("select count(*) from c"), execution_options=xo)]]
+        if kind == EXECTEXT:
+            q = E["text"]("select id from c where val >= :a order by id")
+            return [[x[0]] for x in s.execute(q, {"a": a}, execution_options=xo).all()]
+        if kind == SCALARORM:
+            return [[s.scalar(select(func.count()).select_from(C), execution_options=xo)]]
+        if kind == SCALARSCORE:
+            return [[x] for x in s.scalars(select(t.c.id).where(t.c.val >= a).order_by(t.c.id), execution_options=xo).all()]
+        if kind == CONNEXEC:
+            return [[x[0]] for x in s.connection().execute(select(t.c.id).where(t.c.val >= a).order_by(t.c.id)).all()]
         raise ValueError(kind)
 
     def guard(self, step):
@@ -377,7 +439,7 @@ class _Side:
 
         if k in (SETVAL, SETPID):
             return 0 if usable(self.ch.get(step[1])) else 1
-        if k == DELC:
+        if k in (DELC, SETID):
             o = self.ch.get(step[1])
             if not usable(o):
                 return 1
@@ -424,6 +486,11 @@ class _Side:
             self.ch[step[1]].pid = step[2] or None
         elif k == DELC:
             s.delete(self.ch[step[1]])
+        elif k == SETID:
+            o = self.ch.pop(step[1])
+            o.id = self.nc
+            self.ch[self.nc] = o
+            self.nc += 1
         elif k == FLUSH:
             s.flush()
         elif k == Q:
@@ -476,7 +543,8 @@ def model_pair(case, obs):
 
 # ------------------------------------------------------------------------------ oracle
 _QNAME = ["select(C)", "select(C.id, C.val)", "select(count)", "Core select", "get(C)", "lazy load C.parent",
-          "collection load P.children", "get(P)", "refresh", "Query", "scalars"]
+          "collection load P.children", "get(P)", "refresh", "Query", "scalars", "scalar(Core count)", "scalar(text)",
+          "execute(text)", "scalar(ORM count)", "scalars(Core select)", "connection().execute"]
 
 
 def oracle(case, obs):
@@ -486,8 +554,8 @@ def oracle(case, obs):
     if not saf:
         return None
     for n, (st, o) in enumerate(zip(steps, obs)):
-        if st[0] != Q or st[2] != 0:
-            continue
+        if st[0] != Q or st[2] != 0 or st[1] == CONNEXEC:
+            continue  # (Session.connection().execute() is not a Session execution: it never autoflushes)
         rc, ra, rb = o[0], o[1], o[5]
         if rc != 0:
             continue  # skipped; get of a present identity; relationship access on a PENDING object (rc 4): no lazy
@@ -506,7 +574,7 @@ def match_finding(case, what):
 LEVEL_TEXT = (
     "Machine-checked proof (Coq) over a Gallina model of the Session (database tables, persistent / pending / "
     "deleted objects, identity-map resolution of rows) and of every autoflush entry point: for ALL states and all "
-    "11 query shapes, with autoflush enabled the result equals the result after an explicit flush (flush is "
+    "17 query shapes, with autoflush enabled the result equals the result after an explicit flush (flush is "
     "idempotent; identity-map hits need no flush); the flush applies every pending add / modification / re-parent "
     "/ delete (pointwise characterisation of the tables); with autoflush disabled nothing is written.  Relationship "
     "access on a PENDING object emits no load at all (documented, load_on_pending=False): it is outside the "
@@ -515,7 +583,7 @@ LEVEL_TEXT = (
 )
 LEVEL_NOTE = (
     "interpretation: relationship access on a pending object is not a 'lazy load executed inside the session' (no "
-    "load is emitted; documented) and is outside the property; partial: two mapped classes with one relationship pair and eleven query shapes; no commit/rollback/expire_all, "
+    "load is emitted; documented) and is outside the property; partial: two mapped classes with one relationship pair and seventeen query shapes (primary-key changes: twin oracle only); no commit/rollback/expire_all, "
     "no event hooks (autoflush inside a flush is covered by the translated guard only), no merge / "
     "merge_frozen_result, no populate_existing, no joined/selectin eager loaders.  Trusted: Coq kernel; the hand "
     "transcription (pinned + compared on every run)."
